@@ -1,8 +1,132 @@
+import z3
 from vlib.runner import KaniOb
-ASSUMPTIONS = ["weekday arithmetic: all 7 x 256 and 49 combinations as one symbolic query each (exhaustive within the types)"]
+from vlib.mirsym_run import MirOb, In, NPC, dur_total, clampz
+from props.c02 import is_canon
+from props.c05 import K, is_uniform, UNIFORM
+
+NPD = 86400 * 10**9
+
+def wd_tai(env, k="e"):
+    """civil weekday index (Monday = 0) of the TAI calendar date of the epoch: 1900-01-01 was a Monday"""
+    c, n, ts = env[k]
+    # TAI elapsed time T = c*NPC + X with X = n + K(ts). Whole days of T: a century is exactly 36525 days
+    # (asserted below), so floor(T / NPD) = 36525*(c + floor(X / NPC)) + floor((X mod NPC) / NPD).
+    # This form (identities of integer division, nothing taken from the code) is what the solvers digest.
+    X = n + K(ts)
+    return (36525 * (c + X / NPC) + (X % NPC) / NPD) % 7    # z3: floor division / non-negative mod
+
+assert NPC == 36525 * NPD
+
+def pre_u(env):
+    c, n, ts = env["e"]
+    return z3.And(is_uniform(ts), c >= -32000, c <= 32000)
+
+def probes_u(vals, rnd, i):
+    vals["e_ts"] = rnd.choice(UNIFORM)
+    vals["e_c"] = max(-32000, min(32000, vals["e_c"]))
+    if i % 3 == 0:   # first / last nanoseconds of a day
+        day = rnd.randint(0, 36524)
+        vals["e_n"] = day * NPD + rnd.choice([0, 1, NPD - 1, NPD - 2, NPD - 400])
+    if "w" in vals:
+        vals["w"] = rnd.randint(0, 6)
+
+def post_weekday(env, ret, refs):
+    return ret.discr == wd_tai(env)
+
+def post_next(env, ret, refs):
+    c, n, ts = env["e"]
+    k = (env["w"] - wd_tai(env)) % 7
+    k = z3.If(k == 0, 7, k)
+    rd, rts = ret.fields[0], ret.fields[1]
+    return z3.And(rts.discr == ts, is_canon(rd), dur_total(rd) == clampz(c * NPC + n + k * NPD))
+
+def post_previous(env, ret, refs):
+    c, n, ts = env["e"]
+    k = (wd_tai(env) - env["w"]) % 7
+    k = z3.If(k == 0, 7, k)
+    rd, rts = ret.fields[0], ret.fields[1]
+    return z3.And(rts.discr == ts, is_canon(rd), dur_total(rd) == clampz(c * NPC + n - k * NPD))
+
+def summary_weekday(eng, st, args):
+    """contract of Epoch::weekday (decided by c16_weekday_tai): some weekday index 0..6; the post-condition of
+    next/previous is phrased through this very value, so no day arithmetic is needed there"""
+    from vlib.mirsym.engine import EnumV
+    v = z3.Int(f"wd!{next(eng.fresh)}")
+    c = z3.And(v >= 0, v <= 6)
+    st.pc.append(c); eng.solver.add(c)
+    eng.var_range[str(v)] = (0, 6)
+    st.summary_vals = getattr(st, "summary_vals", []) + [v]
+    return [(True, EnumV("Weekday", v, (), None))]
+
+def _wd_of_path(env):
+    vals = env.get("__summary_vals")
+    return vals[0] if vals else None
+
+def post_next2(env, ret, refs):
+    c, n, ts = env["e"]
+    wd = _wd_of_path(env)
+    if wd is None:   # concrete judging of a native result: compute the weekday directly
+        wd = wd_tai(env)
+    k = (env["w"] - wd) % 7
+    k = z3.If(k == 0, 7, k)
+    rd, rts = ret.fields[0], ret.fields[1]
+    return z3.And(rts.discr == ts, is_canon(rd), dur_total(rd) == clampz(c * NPC + n + k * NPD))
+
+def post_previous2(env, ret, refs):
+    c, n, ts = env["e"]
+    wd = _wd_of_path(env)
+    if wd is None:
+        wd = wd_tai(env)
+    k = (wd - env["w"]) % 7
+    k = z3.If(k == 0, 7, k)
+    rd, rts = ret.fields[0], ret.fields[1]
+    return z3.And(rts.discr == ts, is_canon(rd), dur_total(rd) == clampz(c * NPC + n - k * NPD))
+
+def pre_utc_own(env):
+    c, n, ts = env["e"]
+    return ts == 4
+
+def post_weekday_utc_own(env, ret, refs):
+    c, n, ts = env["e"]
+    return ret.discr == (36525 * c + n / NPD) % 7
+
+def probes_utc(vals, rnd, i):
+    vals["e_ts"] = 4
+    if i % 2 == 0:
+        day = rnd.randint(0, 36524)
+        vals["e_n"] = day * NPD + rnd.choice([0, 1, NPD - 1, NPD - 2, NPD - 400])
+
+def e2_obligations():
+    b = "epochs in the six uniform scales, |centuries| <= 32000 (years -3.2M..+3.2M, so 0001-9999 and before 1900 included), every nanosecond of every day (full width)"
+    f = ["Epoch::weekday", "Epoch::weekday_in_time_scale", "Epoch::to_time_scale", "From<u8> for Weekday"]
+    return [
+        MirOb("c16_weekday_tai", "weekday@src/epoch/ops.rs#(&epoch::Epoch)", [In("e", "&Epoch")], post_weekday,
+              "weekday() is the civil weekday of the TAI calendar date, for every instant of the day incl. its first and last nanosecond, before 1900 as well",
+              "weekday_tai", pre=pre_u, probes=probes_u, ret_shape="Weekday", min_paths=6, bounds=b, functions=f),
+        MirOb("c16_weekday_utc_own", "weekday_utc@src/epoch/ops.rs#(&epoch::Epoch)", [In("e", "&Epoch")], post_weekday_utc_own,
+              "weekday_utc() of a UTC epoch is the civil weekday of its UTC calendar date (every day, every nanosecond, every century)",
+              "weekday_utc", pre=pre_utc_own, probes=probes_utc, ret_shape="Weekday", min_paths=7,
+              bounds="every canonical UTC elapsed time (full width)", functions=["Epoch::weekday_utc", "Epoch::weekday_in_time_scale"],
+              outside="epochs given in another scale: weekday_utc = same function of to_duration_in_time_scale(UTC), whose conversion is C06; the end-to-end Kani harness c16_weekday_utc runs in the thorough tier"),
+        MirOb("c16_next", "next@src/epoch/ops.rs#(&epoch::Epoch;weekday::Weekday)", [In("e", "&Epoch"), In("w", "Weekday")], post_next2,
+              "next(w): exactly 1..7 whole days later, landing on weekday w (relative to the epoch's weekday()), same time of day, same scale; weekday() enters through its contract (c16_weekday_tai)",
+              "epoch_next", probes=probes_u, ret_shape="Epoch", min_paths=12, summaries={"::weekday": summary_weekday}, summaries_concrete={},
+              bounds="all nine scales, every canonical elapsed time x 7 weekdays (full width)", functions=["Epoch::next", "Weekday - Weekday", "i64 * Unit", "Epoch + Duration", "Epoch::weekday (contract)"]),
+        MirOb("c16_previous", "previous@src/epoch/ops.rs#(&epoch::Epoch;weekday::Weekday)", [In("e", "&Epoch"), In("w", "Weekday")], post_previous2,
+              "previous(w): exactly 1..7 whole days earlier, landing on weekday w, same time of day, same scale; weekday() through its contract",
+              "epoch_previous", probes=probes_u, ret_shape="Epoch", min_paths=12, summaries={"::weekday": summary_weekday}, summaries_concrete={},
+              bounds="all nine scales, every canonical elapsed time x 7 weekdays (full width)", functions=["Epoch::previous", "Weekday - Weekday", "i64 * Unit", "Epoch - Duration", "Epoch::weekday (contract)"]),
+    ]
+
+ASSUMPTIONS = ["epoch weekday: E2 at full width for epochs in the six uniform scales (weekday(), next, previous); weekday_utc and UTC-sourced epochs by Kani against the IERS oracle table within 1900-2100; ET/TDB-sourced epochs outside (C07)","weekday arithmetic: all 7 x 256 and 49 combinations as one symbolic query each (exhaustive within the types)"]
 W = "src/weekday.rs"
 def obligations(tier, seed):
-    return [
+    return e2_obligations() + [
+        KaniOb("c16", "c16_next_previous", "next(w) / previous(w): exactly 1..7 whole days later / earlier, landing on weekday w, same time of day, same scale",
+               ["Epoch::next", "Epoch::previous", "Epoch::weekday", "Weekday - Weekday", "i64 * Unit", "Epoch +/- Duration"],
+               "epochs in TAI and GPST, centuries -3..3 (1600-2300), every day and every nanosecond of the day x 7 weekdays", tq=7200, tt=7200, tier="thorough", mem=30),
+        KaniOb("c16", "c16_weekday_utc", "weekday_utc() is the civil weekday of the UTC calendar date (TAI and UTC sourced epochs, either side of every leap second, first and last ns of the day)",
+               ["Epoch::weekday_utc", "Epoch::weekday_in_time_scale", "Epoch::to_time_scale (UTC arms)"], "every instant 1900-2100 at ns resolution, source scale TAI or UTC; unwind 44", tq=7200, tt=7200, tier="thorough", mem=30),
         KaniOb("c16", "c16_from_u8", "Weekday::from(u8) / u8::from(Weekday) reduce modulo 7", [f"{W}: From<u8> for Weekday", "From<Weekday> for u8"], "all 256 u8"),
         KaniOb("c16", "c16_from_i8", "Weekday::from(i8) reduces modulo 7 (Euclidean)", [f"{W}: From<i8> for Weekday"], "all 256 i8"),
         KaniOb("c16", "c16_add_u8", "Weekday + u8 and += wrap modulo 7, never overflow", [f"{W}: Add<u8>, AddAssign<u8>"], "all 7 x 256"),
